@@ -28,6 +28,11 @@ use crate::{
 
 #[derive(Clone, Copy)]
 enum Mode {
+    /// Subscribers join mirrors at any time (also while another reader holds a view of the mirror).
+    Join,
+    /// Like Join, and the collection may be dropped before done (trigger of the known finding
+    /// "subscribers of a mirror are not told when the mirror loses its upstream").
+    JoinDrop,
     Lag,
     MaxSize { avoid_f8: bool },
     Cut,
@@ -35,19 +40,19 @@ enum Mode {
 
 fn opts(mode: Mode, hash: bool) -> Opts {
     let (small_max_size, grow_only_push, cut) = match mode {
-        Mode::Lag => (false, false, false),
+        Mode::Lag | Mode::Join | Mode::JoinDrop => (false, false, false),
         Mode::MaxSize { avoid_f8 } => (true, avoid_f8, false),
         Mode::Cut => (false, false, true),
     };
     Opts {
         class: "c14",
         genr: GenOpts { retain_mutates: false, set_tags: false, grow_only_push, max_len: 16 },
-        small_buffers: !matches!(mode, Mode::MaxSize { .. }),
+        small_buffers: !matches!(mode, Mode::MaxSize { .. } | Mode::Join | Mode::JoinDrop),
         small_max_size,
         remote: true,
         cut,
-        drop_before_done: true,
-        resub: false,
+        drop_before_done: !matches!(mode, Mode::Join),
+        resub: matches!(mode, Mode::Join | Mode::JoinDrop),
         exact: true,
         max_steps: 40,
         hash_order_on_wire: hash,
@@ -64,6 +69,12 @@ macro_rules! scen {
     };
 }
 
+scen!(join_vec, ObservableVec<u16>, Mode::Join, true);
+scen!(join_deque, ObservableVecDeque<u16>, Mode::Join, true);
+scen!(join_map, ObservableHashMap<Key, u16>, Mode::Join, true);
+scen!(join_set, ObservableHashSet<Key>, Mode::Join, true);
+scen!(join_drop_vec, ObservableVec<u16>, Mode::JoinDrop, true);
+scen!(join_drop_map, ObservableHashMap<Key, u16>, Mode::JoinDrop, true);
 scen!(lag_vec, ObservableVec<u16>, Mode::Lag, true);
 scen!(lag_deque, ObservableVecDeque<u16>, Mode::Lag, true);
 scen!(lag_map, ObservableHashMap<Key, u16>, Mode::Lag, true);
@@ -89,6 +100,12 @@ pub fn checks() -> Vec<Check> {
         level: "exploration",
         classes: vec!["c14"],
         scenarios: vec![
+            sc("join-mirror-vec", 2, join_vec),
+            sc("join-mirror-vec-deque", 1, join_deque),
+            sc("join-mirror-hash-map", 1, join_map),
+            sc("join-mirror-hash-set", 1, join_set),
+            sc("join-mirror-upstream-lost-vec", 1, join_drop_vec),
+            sc("join-mirror-upstream-lost-hash-map", 1, join_drop_map),
             sc("lag-vec", 4, lag_vec),
             sc("lag-vec-deque", 3, lag_deque),
             sc("lag-hash-map", 3, lag_map),
@@ -122,7 +139,7 @@ distinct = distinct (plan hash, poll-order hash) pairs",
         required_probes: vec![
             "mirror_lagged", "raw_lagged", "mirror_closed", "raw_closed", "mirror_max_size_exceeded", "mirror_remote_error", "raw_remote_error",
             "dropped_before_done", "link_fault_armed", "subscription_held_before_use", "peek_ok", "peek_err", "mirror_detached",
-            "mirror_remote_1hop", "mirror_remote_2hop", "hand_consumer_remote", "list.push", "settle_check",
+            "mirror_remote_1hop", "mirror_remote_2hop", "hand_consumer_remote", "list.push", "settle_check", "mirror_resubscribed", "resubscribed_while_mirror_view_held",
         ],
         real_components: "remoc::robs::{vec,vec_deque,hash_map,hash_set,list} observables, subscriptions, mirror tasks; remoc::rch::broadcast lag path; remoc::rch::{mpsc,base}; remoc::chmux; default codec",
         stub_components: STUB_NET,
